@@ -25,6 +25,7 @@ fn gen(t: Tier, _seed: u64, emit: &mut dyn FnMut(Case)) {
         let mut ns = wb_lengths(cid.bits(), t.pick(2, 3));
         ns.extend([4, 5, 7]);
         ns.extend(long_lengths(cid.bits()));
+        ns.extend(huge_lengths(cid.bits()).into_iter().step_by(3));
         ns.sort();
         ns.dedup();
         for n in ns {
@@ -46,6 +47,20 @@ fn run(c: &Case, out: &mut Out) {
     }
 }
 
+/// `io::Read` over a byte slice that returns at most one byte per call
+struct OneByte<'a>(&'a [u8], usize);
+
+impl std::io::Read for OneByte<'_> {
+    fn read(&mut self, buf: &mut [u8]) -> std::io::Result<usize> {
+        if self.1 >= self.0.len() || buf.is_empty() {
+            return Ok(0);
+        }
+        buf[0] = self.0[self.1];
+        self.1 += 1;
+        Ok(1)
+    }
+}
+
 fn seq_rt<A: Sx>(pr: &Produced<A>, out: &mut Out) {
     let cn = A::CID.name();
     out.units += 1;
@@ -54,15 +69,31 @@ fn seq_rt<A: Sx>(pr: &Produced<A>, out: &mut Out) {
         out.dim("head_bit", h as i64);
     }
     let al = alphabet::<A>();
-    for fmt in ["bincode", "json"] {
-        out.stage = if fmt == "bincode" { "bincode round trip of Seq" } else { "JSON round trip of Seq" };
-        let r: Result<Result<Seq<A>, String>, String> = catch(|| {
-            if fmt == "bincode" {
+    for fmt in ["bincode", "json", "bincode-stream", "json-reader", "json-value"] {
+        out.stage = "serde round trip of Seq";
+        let r: Result<Result<Seq<A>, String>, String> = catch(|| match fmt {
+            "bincode" => {
                 let bytes = bincode::serialize(&pr.seq).map_err(|e| format!("serialize: {e}"))?;
                 bincode::deserialize::<Seq<A>>(&bytes).map_err(|e| format!("deserialize: {e}"))
-            } else {
+            }
+            "json" => {
                 let txt = serde_json::to_string(&pr.seq).map_err(|e| format!("serialize: {e}"))?;
                 serde_json::from_str::<Seq<A>>(&txt).map_err(|e| format!("deserialize: {e}"))
+            }
+            // through io::Write / io::Read (nothing to borrow from): a reader handing out one byte at a time
+            "bincode-stream" => {
+                let mut bytes: Vec<u8> = Vec::new();
+                bincode::serialize_into(&mut bytes, &pr.seq).map_err(|e| format!("serialize_into: {e}"))?;
+                bincode::deserialize_from::<_, Seq<A>>(OneByte(&bytes, 0)).map_err(|e| format!("deserialize_from: {e}"))
+            }
+            "json-reader" => {
+                let mut bytes: Vec<u8> = Vec::new();
+                serde_json::to_writer(&mut bytes, &pr.seq).map_err(|e| format!("to_writer: {e}"))?;
+                serde_json::from_reader::<_, Seq<A>>(OneByte(&bytes, 0)).map_err(|e| format!("from_reader: {e}"))
+            }
+            _ => {
+                let v = serde_json::to_value(&pr.seq).map_err(|e| format!("to_value: {e}"))?;
+                serde_json::from_value::<Seq<A>>(v).map_err(|e| format!("from_value: {e}"))
             }
         });
         let back = match r {
@@ -122,7 +153,7 @@ fn run_g<A: SxK>(c: &Case, out: &mut Out) {
         Case::Seqs { n, variant, .. } => {
             let content = syms::<A>(&bg(*n, m, 130 + variant, out.seed));
             let other = syms::<A>(&bg(*n, m, 140 + variant, out.seed));
-            let offsets: Vec<usize> = if out.tier.thorough() { (0..nof).collect() } else { vec![0, 1, nof / 2 + 1, nof - 1] };
+            let offsets: Vec<usize> = if *n > 1200 { vec![0, 1] } else if out.tier.thorough() { (0..nof).collect() } else { vec![0, 1, nof / 2 + 1, nof - 1] };
             out.dim("len", *n as i64);
             let mut prods = match catch(|| producers::producers::<A>(&content, &other, &offsets, true)) {
                 Ok(p) => p,
@@ -184,7 +215,7 @@ fn run_g<A: SxK>(c: &Case, out: &mut Out) {
 fn main() {
     main_loop("C18", gen, run, |_| {
         json!({
-            "formats": ["bincode 1.3", "serde_json"],
+            "formats": ["bincode 1.3 (slice)", "bincode 1.3 (serialize_into / deserialize_from an io::Read handing out one byte at a time)", "serde_json (string)", "serde_json (to_writer / from_reader)", "serde_json (Value)"],
             "sequence_values": "every producer of bsv/src/producers.rs (parsed, collected, copies of offset slices, rev/comp/mask results, bitwise results, edit histories with dead bits and kept allocations, empty values with a history, with_capacity) at every word-boundary length, plus values deserialized from bitvec's serial form with a non-zero head and set dead bits",
             "oracle": "deserialized == original in both directions, same len, same recorded hash stream, same display and symbols, and the same behaviour under push/push/truncate afterwards",
         })
